@@ -14,6 +14,10 @@
    pinned, repaired by 2b7c59d) and MC_ApbpConc_pinned_vec.cfg (ICU vector registers, known finding) must violate
    LocksetOK; MC_ApbpConc_mut_inside.cfg (seeded
    mutation: handler called inside the lock) must violate NoDeadlock -- keeps the model honest.
+4. Hammer (hammer_rec, plain build): millions of two-thread episodes of one to three calls per thread on a real
+   Teakra, released together; identical episodes are one outcome class, every class must have an explaining
+   interleaving (ApbpConcTrace, Trace_ApbpConc_hammer.cfg).  Reaches windows of a few instructions inside one call
+   (e.g. a receive split into two critical sections), which the long protocol runs of clause 3 hit only by luck.
 3. Conformance, impl -> spec: conc_rec built with -fsanitize=thread runs a real Teakra with a DSP thread
    (guest program + DSP-side MMIO accesses) and a host thread, per-thread event sequences only; TLC
    (ApbpConcTrace.tla, depth-first) searches for an interleaving of the two sequences that the same
@@ -87,6 +91,7 @@ def run(ck):
     files = record(ck)
     clean = triage(ck, files)
     ck.validate_traces('ApbpConcTrace', 'Trace_ApbpConc.cfg', clean, deque=True, timeout=1500)
+    hammer(ck)
     for f in files[:2]:
         try:
             with open(f) as fh:
@@ -107,6 +112,25 @@ def run(ck):
         'of the specification (no cross-thread order is recorded, on purpose: a shared counter would hide races)',
         'TLC, the Json/IOUtils/Bitwise community modules, g++ and libtsan are trusted',
     ]
+
+
+def hammer(ck):
+    """Atomicity windows of a few instructions: millions of tiny two-thread episodes (hammer_rec), deduplicated into
+    outcome classes, every class explained by an interleaving of ApbpConc's micro-operations or reported."""
+    ck.build('hammer_rec')
+    nproc = ck.pick(3, 8)
+    rounds = ck.pick(150000, 1000000)
+    files = [os.path.join(ck.work, 'hammer_%d.ndjson' % i) for i in range(nproc)]
+    ck.run_jobs(['%s --seed %d --n %d --out %s' % (ck.bin('hammer_rec'), ck.seed * 31 + i, rounds, f) for i, f in enumerate(files)],
+                timeout=2400, par=3)
+    episodes = classes = 0
+    for f in files:
+        for ln in open(f):
+            classes += 1
+            episodes += json.loads(ln).get('n', 0)
+    ck.extra_cov['hammer_episodes'] = episodes
+    ck.extra_cov['hammer_outcome_classes'] = classes
+    ck.validate_traces('ApbpConcTrace', 'Trace_ApbpConc_hammer.cfg', files, deque=True, timeout=1500, sig_prefix='hammer')
 
 
 def record(ck):
